@@ -69,7 +69,7 @@ type KnownFinding struct {
 		Failure   []string `json:"failure,omitempty"`    // failure kinds covered
 		Sig       []string `json:"sig,omitempty"`        // panic signatures covered (prefix match)
 	} `json:"match"`
-	Witness string `json:"witness,omitempty"`
+	Witness json.RawMessage `json:"witness,omitempty"` // path or list of paths (used by the driver only)
 }
 
 var (
